@@ -6,6 +6,15 @@ def run(prop, tier):
     if prop in ("C09", "C10", "C14"):
         import p1
         return p1.judge(prop, tier)
+    if prop in ("C01", "C02", "C03", "C04", "C05", "C06", "C16"):
+        import p2
+        return p2.judge(prop, tier)
+    if prop == "C19":
+        import p6
+        return p6.judge(prop, tier)
+    if prop == "C20":
+        import p7
+        return p7.judge(prop, tier)
     raise ToolError("no check for %s" % prop)
 
 
@@ -13,4 +22,13 @@ def replay(prop, path):
     if prop in ("C09", "C10", "C14"):
         import p1
         return p1.replay(prop, path)
+    if prop in ("C01", "C02", "C03", "C04", "C05", "C06", "C16"):
+        import p2
+        return p2.replay(prop, path)
+    if prop == "C19":
+        import p6
+        return p6.replay(prop, path)
+    if prop == "C20":
+        import p7
+        return p7.replay(prop, path)
     raise ToolError("no replay for %s" % prop)
